@@ -48,6 +48,7 @@ def run(ctx):
              ((0, 1025, 1, 3, 7, 8, 2, A_BK, A_KS), 10, 3), ((0, 3, 1, 2, 10, 8, 2, A_BK, A_KS), 30, 15), ((0, 8, 2, 2, 10, 4, 4, A_BK, A_KS), 20, 7),
              ((0, 4, 1, 22, 1, 8, 2, A_BK, A_KS), 12, 15), ((0, 3, 1, 1, 16, 8, 2, 4, A_KS), 12, 15),      # extreme gadget layouts: Bgbit = 1 (digits in {-1,0}), l = 1
              ((0, 4, 1, 2, 13, 8, 2, A_BK // 64, A_KS), 12, 15), ((0, 6, 1, 2, 16, 8, 2, A_BK // 64, A_KS), 12, 15),      # large gadget bases (digits up to 2^12, 2^15) in every variant
+             ((-2, 5, 1, 2, 10, 8, 2, A_BK // 64, A_KS), 10, 15), ((-2, 4, 2, 3, 7, 8, 2, A_BK // 64, A_KS), 6, 15),      # lambda = -2: ternary ring key (the final key switch encodes coefficients -1 too)
              ((-1, 1024, 1, 3, 7, 8, 2, A_BK, A_KS), 4, 15)]      # lambda = -1: the in/out LWE parameters are the extracted-sample parameters object itself (n = k*N)
     if thorough:
         confs = [((128, 0, 0, 0, 0, 0, 0, 0, 0), 2048, 15), ((80, 0, 0, 0, 0, 0, 0, 0, 0), 2048, 15),
